@@ -609,6 +609,15 @@ def _module_value(tree, name, depth=0):
                                          else ast.Subscript(value=st.value, slice=ast.Constant(value=i), ctx=ast.Load()))
     if len(binds) != 1 or depth > 4:
         return None
+    b0 = binds[0]
+    if isinstance(b0, ast.Call) and isinstance(b0.func, ast.Name) and not b0.args and not b0.keywords:
+        # NAME = builder(): the table is what the module-level builder returns (its single return, locals substituted)
+        fdef = [st for st in tree.body if isinstance(st, ast.FunctionDef) and st.name == b0.func.id]
+        if len(fdef) == 1:
+            rets_ = [r for r in ast.walk(fdef[0]) if isinstance(r, ast.Return) and r.value is not None]
+            if len(rets_) == 1:
+                from sa.common import expand_deep as _ed
+                binds = [_ed(DefUse(fdef[0]), rets_[0].value, rets_[0])]
 
     class X(ast.NodeTransformer):
         def visit_Name(self, node):
@@ -673,10 +682,15 @@ def d5_fscale(ctx):
             tbl2 = _MV().visit(_copy.deepcopy(tbl))
             if norm(tbl2) != norm(tbl):
                 module_tbl = tbl2
+                tbl = tbl2
         ctx.check(same, fo, ss[0], ss[0], "the size is picked from the table that was searched", "the table searched and the table indexed differ", key="same-table")
         srt = tbl is not None and isinstance(tbl, ast.Call) and call_name(tbl) in ("unique", "sort")
         ctx.check(srt, fo, fo.node, "np.unique(...)", "table is sorted ascending", "table is not sorted before the search", key="sorted")
     scope = [fo.node] + ([module_tbl] if module_tbl is not None else [])
+    if module_tbl is not None:
+        # a table built by a module-level builder function: its body is part of what defines the sizes
+        used = {n.id for st_ in fo.module.tree.body if isinstance(st_, ast.Assign) for n in ast.walk(st_.value) if isinstance(n, ast.Call) and isinstance(n.func, ast.Name) for n in [n.func]}
+        scope += [st_ for st_ in fo.module.tree.body if isinstance(st_, ast.FunctionDef) and st_.name in used and st_.name.startswith("_") and "fft" in st_.name.lower()]
     bases = sorted({const_value(b.left)[1] for sc_ in scope for b in find(sc_, ast.BinOp) if isinstance(b.op, ast.Pow) and const_value(b.left)[0]})
     ctx.check(bases == [2, 3], fo, fo.node, f"bases {bases}", "sizes are 2^a 3^b", f"sizes are built from {bases}", key="bases")
 
